@@ -386,7 +386,7 @@ def execute(case):
 # exhaustive sub-domains: every placement of one preemption (and of two, thorough) in fixed programs
 
 EXHAUSTIVE_DOMAINS = {
-    'one_preemption': 'fixed programs (2 workers: separate groups / shared group 0 / done+skip mix; sweep and evo; N=2) x every '
+    'one_preemption': '6 fixed programs (2 workers: separate groups / shared group with done+skip in both orders; sweep, evo, random; N=2..3) x every '
                       'single preemption point 1..S (S = steps of the run-to-completion schedule + margin)',
     'two_preemptions': 'thorough only: the separate-groups sweep program x every pair of preemption points (stride 3)',
 }
@@ -396,6 +396,9 @@ PROGRAMS = [
     {'algo': 'sweep', 'N': 2, 'sign': -1, 'workers': [{'group': 0, 'actions': ['done']}, {'group': 0, 'actions': ['skip', 'done']}]},
     {'algo': 'evo', 'N': 3, 'sign': 1, 'workers': [{'group': None, 'actions': ['multi']}, {'group': None, 'actions': ['skip', 'done']}]},
     {'algo': 'random', 'N': 2, 'sign': -1, 'workers': [{'group': 'g', 'actions': ['skip']}, {'group': 'h', 'actions': ['done']}]},
+    # co-workers racing with different verdicts on the same trial, the skipping one first
+    {'algo': 'sweep', 'N': 2, 'sign': 1, 'workers': [{'group': 0, 'actions': ['skip']}, {'group': 0, 'actions': ['done']}]},
+    {'algo': 'random', 'N': 3, 'sign': -1, 'workers': [{'group': None, 'actions': ['done']}, {'group': None, 'actions': ['done']}]},
 ]
 
 
